@@ -112,6 +112,47 @@ int main(int argc, char **argv)
 					lp_global_fini();
 				}
 			}
+	/* routing at scale (chunk 0 only): LP counts whose product with the thread count does not fit 32 bits cannot be set up for real
+	 * (lp_init touches every LP); on ONE rank the rank's range is all identifiers by definition, so the routing function of the code
+	 * is evaluated with lid_node_first = 0, n_lps_node = L at an ascending sample of identifiers (0, L-1, around every k*L/T, random):
+	 * contiguous ownership ranges in thread order with routing = ownership and no idle thread imply that the values are
+	 * non-decreasing, start at 0, end at T-1 and stay below T */
+	if(off == 0) {
+		static const struct { uint64_t L; unsigned T; } big[] = {{1000003ULL, 16}, {(1ULL << 26) + 1, 64}, {134230073ULL, 32},
+		    {(1ULL << 28) + 7, 16}, {(1ULL << 31) + 11, 4}, {(1ULL << 32) + 1, 2}, {(1ULL << 33) + 5, 3}, {(1ULL << 30) - 1, 5}, {4294967ULL, 1000 % 61}};
+		uint64_t x = 88172645463325252ULL;
+		for(unsigned c = 0; c < sizeof(big) / sizeof(*big); ++c) {
+			uint64_t L = big[c].L, ids[200];
+			unsigned T = big[c].T, n = 0;
+			global_config.lps = L;
+			global_config.n_threads = T;
+			n_nodes = 1;
+			nid = 0;
+			lid_node_first = 0;
+			n_lps_node = L;
+			ids[n++] = 0;
+			ids[n++] = L - 1;
+			for(unsigned k = 1; k < T && n + 3 < 150; ++k) {
+				uint64_t g = (uint64_t)(((__uint128_t)k * L) / T);
+				ids[n++] = g > 0 ? g - 1 : 0;
+				ids[n++] = g;
+				ids[n++] = g + 1 < L ? g + 1 : L - 1;
+			}
+			while(n < 200) {
+				x ^= x << 13, x ^= x >> 7, x ^= x << 17;
+				ids[n++] = x % L;
+			}
+			for(unsigned i = 1; i < n; ++i) /* insertion sort */
+				for(unsigned j = i; j > 0 && ids[j - 1] > ids[j]; --j) {
+					uint64_t t = ids[j];
+					ids[j] = ids[j - 1], ids[j - 1] = t;
+				}
+			fprintf(out, "{\"e\":\"PartBig\",\"Lhi\":%u,\"Llo\":%u,\"T\":%u,\"rid\":[", (unsigned)(L >> 20), (unsigned)(L & 0xfffff), T);
+			for(unsigned i = 0; i < n; ++i)
+				fprintf(out, "%s%lld", i ? "," : "", (long long)lid_to_rid(ids[i]));
+			fprintf(out, "]}\n");
+		}
+	}
 	fclose(out);
 	return 0;
 }
